@@ -1244,6 +1244,9 @@ class Interp:
                 self.exec_block(st.finalbody, frame)
 
     def st_While(self, st, frame):
+        spec = self.loop_invariant_for(st, frame)
+        if spec is not None:
+            return self.while_with_invariant(st, frame, spec)
         n = 0
         broke = False
         while self.is_truthy(self.eval(st.test, frame)):
@@ -1259,6 +1262,48 @@ class Interp:
                 continue
         if not broke:
             self.exec_block(st.orelse, frame)
+
+    def loop_invariant_for(self, st, frame):
+        """sidecar loop invariant keyed by (function, ordinal of the while loop inside it)"""
+        invs = self.P.ghost.get("loop_invariants")
+        if not invs or frame.fi is None:
+            return None
+        whiles = [n for n in ast.walk(frame.fi.node) if isinstance(n, ast.While)]
+        whiles.sort(key=lambda n: (n.lineno, n.col_offset))
+        k = whiles.index(st) if st in whiles else None
+        return invs.get((frame.fi.fq, k))
+
+    def while_with_invariant(self, st, frame, spec):
+        """loop rule 4: invariant holds on entry (obligation), is preserved by one arbitrary iteration
+        (obligation, checked on a path of its own that ends there) and is assumed, together with the
+        negated condition, after the loop.  Variables written by the body are havocked."""
+        from .engine import Obligation, discharge, Infeasible, BoolS
+
+        P = self.P
+        name = "loop[%s@L%d]" % (frame.fi.fq.split(":")[1], st.lineno)
+        entry = spec.enter(self, frame)  # ghost values at loop entry
+        ob = Obligation("inv_init[%s]" % name, spec.props, "loop")
+        discharge(P, to_z3b(spec.inv(self, frame, entry)), ob)
+        P.obligs.append(ob)
+        step = P.fresh("in_arbitrary_iteration", BoolS)
+        if P.branch(step):
+            spec.havoc(self, frame)
+            P.assume(to_z3b(spec.inv(self, frame, entry)), "loop:invariant before an arbitrary iteration")
+            if not self.is_truthy(self.eval(st.test, frame)):
+                raise Infeasible()
+            try:
+                self.exec_block(st.body, frame)
+            except (_Break, _Continue, _Return):
+                raise OutOfSubset("break/continue/return inside a loop with an invariant (line %d)" % st.lineno)
+            ob2 = Obligation("inv_step[%s]" % name, spec.props, "loop")
+            discharge(P, to_z3b(spec.inv(self, frame, entry)), ob2)
+            P.stats.setdefault("side_obligs", []).append(ob2)
+            raise Infeasible()  # this path only served the preservation obligation
+        spec.havoc(self, frame)
+        P.assume(to_z3b(spec.inv(self, frame, entry)), "loop:invariant at exit")
+        if self.is_truthy(self.eval(st.test, frame)):
+            raise Infeasible()
+        self.exec_block(st.orelse, frame)
 
     def st_For(self, st, frame):
         it = self.eval(st.iter, frame)
